@@ -7,9 +7,11 @@ that behaviour (degenerate trace validation, DESIGN.md 1.1).  node, when present
 of the spec; disagreements exclude the program, they never decide).
 Inputs: (a) exhaustive operator family: every binary/logical operator x operand pool^2; (a') logical assignment family:
 every ||= &&= ??= x target kind (variable, property, element, absent property) x current value, with a counted right-hand side;
-(b) seeded random programs."""
+(b) seeded random programs; (c) built-in library: JSLib.tla enumerates every call of 27 array/string methods over small
+receivers x an argument pool with undefined, NaN, +-Infinity, negative, fractional and out-of-range values (absent vs explicit
+undefined distinguished) and states the result ECMA-262 prescribes."""
 import json, os, random, time
-import vlib, minijs as M, minijs_gen as G, mjcheck
+import vlib, minijs as M, minijs_gen as G, mjcheck, jslib
 from vlib import log
 
 OPS = ["+", "-", "*", "%", "<", "<=", ">", ">=", "==", "!=", "===", "!=="]
@@ -121,9 +123,16 @@ def main(tier):
         log("%s: %d programs, TLC %d states; so far %s" % (label, len(progs), res.distinct, dict(J.stats)))
         for P in progs[:1]:
             c.sample({"family": label, "source": M.ts_source(P)[:600], "expected": M.expected_events(exp[P["id"]])})
+    # ---- built-in library: index arithmetic of the array and string methods (JSLib.tla enumerates every call)
+    lib = dict(cases=0, agree=0, spec_vs_node=0, methods=0) if os.environ.get("VERIF_SKIP_LIB") else jslib.check(c, exe, "quick" if quick else "full", jslib.QUICK_ARGS if quick else jslib.FULL_ARGS, ["array", "string"])
+    log("library family: %d calls of %d methods, %d agree with JSLib.tla, %d excluded (spec disagrees with the reference engine)" % (lib["cases"], lib["methods"], lib["agree"], lib["spec_vs_node"]))
+    if lib["spec_vs_node"] > 0.03 * lib["cases"]:
+        vlib.tool_error("JSLib.tla disagrees with the reference engine on %d of %d calls: the specification needs repair" % (lib["spec_vs_node"], lib["cases"]))
+    total += lib["cases"]; nontrivial += lib["agree"]
     if J.stats["judged"] and J.stats["spec_disagrees_with_reference_engine"] > 0.03 * (J.stats["judged"] + J.stats["spec_disagrees_with_reference_engine"]):
         vlib.tool_error("MiniJS.tla disagrees with the reference engine on more than 3%% of the programs (%d): the specification needs repair" % J.stats["spec_disagrees_with_reference_engine"])
-    c.cov["traces_validated_against_impl"] = J.stats["agree"]
+    c.cov["traces_validated_against_impl"] = J.stats["agree"] + lib["agree"]
+    c.cov["library_calls"] = lib
     c.cov["evaluations"] = total
     c.cov["distinct_nontrivial"] = nontrivial
     c.cov["programs"] = total
